@@ -2,6 +2,7 @@ use std::env;
 
 fn main() {
     println!("cargo::rustc-check-cfg=cfg(test_protos)");
+    println!("cargo::rustc-check-cfg=cfg(rscel_verif)");
     println!("cargo:rerun-if-env-changed=RSCEL_TEST_PROTO");
 
     if let Ok(_) = env::var("RSCEL_TEST_PROTO") {
